@@ -28,6 +28,8 @@
      k = "list"    ix = <<>>                       v = values (mode of a series)
      k = "table"   ix = column positions           v = cells, row-major (mode of a frame)
      k = "rids"    ix = index labels               v = row ids (nlargest / nsmallest of a frame)
+     k = "matrix"  ix = column positions           v = cells, row-major (cov / corr of a frame)
+   (describe: "table" with the rows count, mean, std^2, min, max / "list" of those five)
    err = pandas raises (idxmin / idxmax of an empty or all-NA lane, or of a
    lane with NA under skipna=False); then k = "err", ix = v = <<>>.           *)
 EXTENDS Frames, Rational, TLC, Json
@@ -108,13 +110,39 @@ TopOrder(l, largest) ==
   IN StableSortBy(valid, LAMBDA j : IF largest THEN 0 - l[j] ELSE l[j]) \o nas
 Top(l, n, largest) == SubSeq(TopOrder(l, largest), 1, Least(IF n < 0 THEN 0 ELSE n, Len(l)))
 
+\* cov / corr of two lanes over the rows where BOTH are valid (pairwise complete), ddof = 1.
+\* With n pairs, N = n*Sum(xy) - Sum(x)*Sum(y), Dx = n*Sum(x^2) - Sum(x)^2:
+\*    cov = N / (n*(n-1))          corr = N / sqrt(Dx*Dy)
+\* corr is specified by its SIGNED SQUARE sgn(N) * N^2 / (Dx*Dy) (the harness squares what dask
+\* returns and keeps the sign); NaN for fewer than two pairs and, for corr, a constant lane.
+PairPos(x, y) == SelectSeq(Positions(x), LAMBDA j : x[j] # NA /\ y[j] # NA)
+CovCorr(op, x, y) ==
+  LET ps == PairPos(x, y)
+      n  == Len(ps)
+      xs == [j \in DOMAIN ps |-> x[ps[j]]]
+      ys == [j \in DOMAIN ps |-> y[ps[j]]]
+      N  == n * SumSeq([j \in DOMAIN ps |-> xs[j] * ys[j]]) - SumSeq(xs) * SumSeq(ys)
+      Dx == n * SumSq(xs) - SumSeq(xs) * SumSeq(xs)
+      Dy == n * SumSq(ys) - SumSeq(ys) * SumSeq(ys)
+  IN IF n < 2 THEN RNaN
+     ELSE IF op = "cov" THEN RNorm(N, n * (n - 1))
+     ELSE IF Dx = 0 \/ Dy = 0 THEN RNaN
+     ELSE RNorm((IF N < 0 THEN 0 - 1 ELSE 1) * N * N, Dx * Dy)
+
+\* the exact statistics of describe(): count, mean, std (squared), min, max - as rationals
+Describe(l) ==
+  LET mn == IntFold("min", l, TRUE, 0)
+      mx == IntFold("max", l, TRUE, 0)
+  IN << RInt(IntFold("count", l, TRUE, 0)), RatFold("mean", l, TRUE, 0), RatFold("std", l, TRUE, 1),
+        IF mn = NA THEN RNaN ELSE RInt(mn), IF mx = NA THEN RNaN ELSE RInt(mx) >>
+
 -----------------------------------------------------------------------------
 (* Results.                                                                   *)
 Failure == [k |-> "err", ix |-> <<>>, v |-> <<>>, err |-> TRUE]
 Res(k, ix, v) == [k |-> k, ix |-> ix, v |-> v, err |-> FALSE]
 
 \* A case: [fam, op, tgt, ax, sk, fl, p, cols, rows, scol]
-\*   fam  "fold" | "rat" | "idx" | "nuniq" | "vc" | "mode" | "top" | "len"
+\*   fam  "fold" | "rat" | "idx" | "nuniq" | "vc" | "mode" | "top" | "len" | "cov" | "desc"
 \*   tgt  "frame" | "series" (the series is the first column of cols)
 \*   ax   0 | 1          sk  skipna (fold rat idx) / dropna (nuniq vc mode)
 \*   fl   normalize (vc)
@@ -155,6 +183,16 @@ Expected(c) ==
                          IN IF c.tgt = "series" THEN Res("rows", lab, [j \in DOMAIN sel |-> first[sel[j]]])
                             ELSE Res("rids", lab, [j \in DOMAIN sel |-> c.rows[sel[j]].rid])
     [] c.fam = "len"  -> Res("scalar", <<>>, <<Len(c.rows)>>)
+    [] c.fam = "cov"  -> IF c.tgt = "series" THEN Res("scalar", <<>>, <<CovCorr(c.op, first, Col(c.rows, c.cols[2]))>>)
+                         ELSE LET nc == Len(c.cols) IN
+                              Res("matrix", ColPositions(c.cols),
+                                  [q \in 1..(nc * nc) |-> CovCorr(c.op, Col(c.rows, c.cols[((q - 1) \div nc) + 1]),
+                                                                        Col(c.rows, c.cols[((q - 1) % nc) + 1]))])
+    [] c.fam = "desc" -> IF c.tgt = "series" THEN Res("list", <<>>, Describe(first))
+                         ELSE LET nc == Len(c.cols)
+                                  ds == [j \in DOMAIN c.cols |-> Describe(Col(c.rows, c.cols[j]))]
+                              IN Res("table", ColPositions(c.cols),
+                                     [q \in 1..(5 * nc) |-> ds[((q - 1) % nc) + 1][((q - 1) \div nc) + 1]])
 
 \* value_counts(sort=True): an observed order of (value, count) pairs is acceptable iff the counts
 \* are monotone in the requested direction - the order among equal counts is free.  For normalized
